@@ -193,7 +193,8 @@ func VerifC12Trees() {
 	op := g.op()
 	tmp := asg("t", e)
 	if vrt.Bool("e-on-the-right") {
-		t.Compare(bin(op, other, e), true, blk(tmp, bin(op, other, nm("t"))), true, "tree-right-operand")
+		// the left operand is evaluated first in both spellings (its failure, if any, comes first)
+		t.Compare(bin(op, other, e), true, blk(asg("o", other), tmp, bin(op, nm("o"), nm("t"))), true, "tree-right-operand")
 	} else {
 		t.Compare(bin(op, e, other), true, blk(tmp, bin(op, nm("t"), other)), true, "tree-left-operand")
 	}
@@ -211,7 +212,8 @@ func VerifC12CallOperands() {
 	op := g.op()
 	tmp := asg("t", mid)
 	if vrt.Bool("e-on-the-right") {
-		t.Compare(bin(op, other, mid), true, blk(tmp, bin(op, other, nm("t"))), true, "call-in-right-operand")
+		// the left operand is evaluated first in both spellings (its failure, if any, comes first)
+		t.Compare(bin(op, other, mid), true, blk(asg("o", other), tmp, bin(op, nm("o"), nm("t"))), true, "call-in-right-operand")
 	} else {
 		t.Compare(bin(op, mid, other), true, blk(tmp, bin(op, nm("t"), other)), true, "call-in-left-operand")
 	}
